@@ -278,6 +278,36 @@ def gen_rhythm_text(rng, depth=1):
     return "".join(parts)
 
 
+def gen_flow_cases(rng, n):
+    """a macro whose body holds BREAK / CONTINUE / RETURN, used inside a FOR / WHILE loop or a function: the macro's text
+    stands where it is written, so the flow command acts on the loop / call AROUND the use (with and without arguments)"""
+    out = []
+    for _ in range(n):
+        k = rng.choice([3, 4, 5])
+        j = rng.randrange(0, k)
+        flow = rng.choice(["BREAK", "CONTINUE", "BREAK"])
+        note1, note2 = rng.choice("cdefgab"), rng.choice("cdefgab")
+        shape = rng.choice(["for_arg", "for_noarg", "while_arg", "func_return"])
+        if shape == "for_arg":
+            body = "IF(I==#?1){ %s } %s" % (flow, note1)
+            macro = "#Fm={ %s } FOR(INT I=0;I<%d;I++){ %s #Fm(%d) } %s" % (body, k, note2, j, note1)
+            inline = "FOR(INT I=0;I<%d;I++){ %s IF(I==%d){ %s } %s } %s" % (k, note2, j, flow, note1, note1)
+        elif shape == "for_noarg":
+            body = "IF(I==%d){ %s } %s" % (j, flow, note1)
+            macro = "#Fm={ %s } FOR(INT I=0;I<%d;I++){ %s #Fm } %s" % (body, k, note2, note1)
+            inline = "FOR(INT I=0;I<%d;I++){ %s %s } %s" % (k, note2, body, note1)
+        elif shape == "while_arg":
+            body = "J++ IF(J==#?1){ %s } %s" % (flow, note1)
+            macro = "#Fm={ %s } INT J=0 WHILE(J<%d){ #Fm(%d) %s } %s" % (body, k, j + 1, note2, note1)
+            inline = "INT J=0 WHILE(J<%d){ J++ IF(J==%d){ %s } %s %s } %s" % (k, j + 1, flow, note1, note2, note1)
+        else:
+            body = "%s IF(#?1>0){ RETURN(1) } %s" % (note1, note2)
+            macro = "#Fm={ %s } FUNCTION FQ(N){ #Fm(N) %s } FQ(%d) FQ(0) %s" % (body, note2, j + 1, note1)
+            inline = "FUNCTION FQ(N){ %s IF(N>0){ RETURN(1) } %s %s } FQ(%d) FQ(0) %s" % (note1, note2, note2, j + 1, note1)
+        out.append((macro, inline, "flow", False, True))
+    return out
+
+
 def gen_rhythm_cases(rng, n, table):
     out = []
     for _ in range(n):
@@ -379,6 +409,7 @@ def run(ctx):
                                      "compiles like" if g[0].split("\t")[0] == g[1].split("\t")[0] else "does NOT compile like", o["plays_like"]))
     compare(ctx, cases, "corpus")
     compare(ctx, gen_macro_cases(rng, 1400 if quick else 30000), "generated")
+    compare(ctx, gen_flow_cases(rng, 40 if quick else 1500), "generated")
     compare(ctx, gen_rhythm_cases(rng, 500 if quick else 8000, table), "generated")
     compare(ctx, gen_builtin_cases(rng, 200 if quick else 2000, macros), "generated")
 
